@@ -228,8 +228,9 @@ def run(tier):
         cases4 = []
         if thorough:
             sim = tlc.run(MC, _cfg(4, False, True, ["Emit"]), os.path.join(wd, "sim"), workers=1, timeout=900,
-                          simulate="num=12000", depth=5, seed=r.randrange(1 << 30))
-            cases4 = [c for c in _cases(sim.out) if len(c) == 4]
+                          simulate="num=3000", depth=5, seed=r.randrange(1 << 30))
+            cases4 = sorted(c for c in _cases(sim.out) if len(c) == 4)      # TLC evaluates the invariant on all successors
+            cases4 = r.sample(cases4, min(len(cases4), 60000))
             if len(cases4) < 1000:
                 raise MachineryError("simulation produced too few length-4 cases:\n" + sim.clean()[-2000:])
             chosen = cases3 + cases4
@@ -339,3 +340,22 @@ def _show(d):
             parts.append("(0x%04X, 0x%02X): <%d bytes>" % (k, v, len(c)))
     s = "{" + ", ".join(parts[:6]) + (", ... %d entries" % len(parts) if len(parts) > 6 else "") + "}"
     return s
+
+
+def replay(path):
+    """bin/check C10 --replay <file>: re-run the recorded dictionary on the real code, let TLC judge the new bytes."""
+    import json
+    ev0 = json.load(open(path))["data"]["event"]
+    d = {}
+    for e in ev0["dict"]:
+        d[(e["key"], None if e["kind"] == "delk" else e["vid"])] = bytes(e["content"]) if e["kind"] == "set" else None
+    rec = Recorder()
+    rec.rec_tlv(d, ("replay", None))
+    rec.rec_setcfg(d, [bytes(x) for x in ev0.get("extra", [])], ("replay", None))
+    with Scratch("c10r") as wd:
+        rej, _ = tlc.validate_trace(TR, "INIT Init\nNEXT Next\n", rec.evs, wd, shards=1)
+    for x in rej:
+        print("REJECTED %s: %s on %s" % (x[2], rec.evs[x[1] - 1]["op"], _show(d)))
+    if not rej:
+        print("accepted: %s" % _show(d))
+    return 1 if rej else 0
